@@ -8,7 +8,7 @@ literals and (term, format-spec) tokens that the solver compares with the roundi
 import z3
 
 from pysx import engine, loader, shims
-from pysx.harness import CheckBase, main, run_pinned
+from pysx.harness import CheckBase, main, run_pinned, NotPinned
 from pysx.strs import SymStr, NumTok, ch_eq, decide, elems, zand, zor
 from pysx.serialmodel import pieces
 from pysx.tokens import has_token
@@ -286,7 +286,7 @@ class Check(CheckBase):
         import re
 
         def expected(ms):
-            d = Fraction(ms, 1000)
+            d = Fraction(ms) / 1000
             if d < 10:
                 return ["%.3f Seconds" % float(d)]
             lo = int(d)
@@ -309,7 +309,7 @@ class Check(CheckBase):
             d = Fraction(j, 100000)
             if d < 10:
                 return None if a == "%.3f Seconds" % (msf / 1000.0) else {"call": "format_hms(%r, True)" % msf, "got": a, "expected": "%.3f Seconds" % (msf / 1000.0)}
-            return None if a in expected(int(j // 100)) + expected(int(j // 100) + 1) else {"call": "format_hms(%r, True)" % msf, "got": a}
+            return None if a in expected(Fraction(j, 100)) else {"call": "format_hms(%r, True)" % msf, "got": a, "expected": expected(Fraction(j, 100))}
         if mode == "s-int":
             s = int(i["s"])
             got = tu.format_hms(s)
@@ -381,7 +381,10 @@ class Check(CheckBase):
                         from pysx.harness import concrete
                         out += format(float(concrete(v)) if p.spec.endswith("f") else int(concrete(v)), p.spec)
                 return out
-            got = run_pinned(h)
+            try:
+                got = run_pinned(h)
+            except NotPinned:
+                continue          # the text depends on a rounding direction the model leaves open
             assert got == exp, "translator validation failed for format_hms(%d, True): %r vs %r" % (ms, got, exp)
             n += 1
         return n
